@@ -22,6 +22,10 @@ def h(s):
     return hexs(s)
 
 
+import sqlite3 as _sqlite3
+HAVING_WITHOUT_GROUP_BY = _sqlite3.sqlite_version_info >= (3, 39, 0)
+
+
 class SG:
     def __init__(self, rng, portable=False):
         self.r = rng
@@ -34,7 +38,10 @@ class SG:
         return "(val i:i32:%d)" % self.r.choice([0, 1, 2, 3, 5, 10, -1, 30])
 
     def sval(self):
-        return "(val s:%s)" % h(self.r.choice(["x", "y", "X", "zz", "it's", ""]))
+        # besides plain words: characters whose literal spelling differs by dialect (backslash, quotes, control
+        # characters incl. U+001A, LIKE wildcards, non-ASCII)
+        return "(val s:%s)" % h(self.r.choice(["x", "y", "X", "zz", "it's", "", "x", "y", "zz",
+                                               "a\x1ab", "back\\slash", 'd"q', "nl\nx", "t\tx", "p%_c", "\u00e9\u4e2d", "cr\rx", "b\x08s"]))
 
     def int_expr(self, tbl, depth=2, alias=None):
         r = self.r
@@ -182,6 +189,11 @@ class SG:
             aggs.append("(expr (fn %s %s))" % (f, self.int_expr(tbl, 1)))
         if r.random() < 0.2:
             aggs.append("(expr (countdistinct %s))" % self.col(tbl, INT_COLS[tbl][1]))
+        if r.random() < 0.2 and HAVING_WITHOUT_GROUP_BY:
+            # whole-table aggregate filtered by HAVING, no GROUP BY (SQLite >= 3.39, MySQL, Postgres)
+            cs = aggs + ["(from (t %s))" % h(tbl)] + self.where(tbl)
+            cs.append("(andhaving (bin %s (fn count %s) %s))" % (r.choice(["gt", "ge", "eq", "lt"]), self.col(tbl, "id"), self.ival()))
+            return "(select %s)" % " ".join(cs), False
         cs = ["(col %s)" % self.col(tbl, g)] + aggs + ["(from (t %s))" % h(tbl)] + self.where(tbl) + ["(groupby %s)" % self.col(tbl, g)]
         if r.random() < 0.4:
             cs.append("(andhaving (bin %s (fn count %s) %s))" % (r.choice(["gt", "ge", "eq"]), self.col(tbl, "id"), self.ival()))
